@@ -23,8 +23,9 @@ def parseRow (s : String) : Option EpochRow :=
 def judge (toks : List String) : String :=
   match toks with
   | "note" :: _ => "ok"
-  | "chk" :: "docEq" :: rest => toString (docEq ((rest.dropWhile (· ≠ "|")).drop 1))
-  | "chk" :: "epochsRebased" :: rest =>
+  | "chk" :: p :: rest =>
+    if p == "docEq" || p.startsWith "docEq/" then toString (docEq ((rest.dropWhile (· ≠ "|")).drop 1))
+    else if !(p == "epochsRebased" || p.startsWith "epochsRebased/") then "bad-op" else
     let hdr := rest.takeWhile (· ≠ "|")
     let body := (rest.dropWhile (· ≠ "|")).drop 1
     let before := body.takeWhile (· ≠ "//")
